@@ -54,6 +54,12 @@ class Obj:
         return "<obj>"
 
 
+class Ref:
+    """pending non-containment reference (name, position, class)"""
+    def __init__(self, name, pos, cls):
+        self.name, self.pos, self.cls = name, pos, cls
+
+
 def eval_sym(t):
     k = t[0]
     if k == "none":
@@ -72,6 +78,8 @@ def eval_sym(t):
         return _proc(_s(t[1]), eval_sym(t[2]))
     if k == "list":
         return [eval_sym(x) for x in t[1]]
+    if k == "ref":
+        return Ref(eval_sym(t[1]), t[2], _s(t[3]))
     if k == "obj":
         return Obj(_s(t[1]), t[2], t[3], t[4], t[5], t[6], [(_s(a), eval_sym(v)) for a, v in t[7]])
     raise ValueError(k)
@@ -91,6 +99,8 @@ def to_shape(v, file_name=None):
         return {"s": v}
     if isinstance(v, list):
         return {"l": [to_shape(x, file_name) for x in v]}
+    if isinstance(v, Ref):
+        return {"ref": to_shape(v.name), "refpos": v.pos, "refcls": v.cls}
     return {"cls": v.cls, "pos": v.pos, "end": v.end, "loc": [v.line, v.col, v.nchar, file_name],
             "attrs": [[a, to_shape(x, file_name)] for a, x in v.attrs]}
 
@@ -104,6 +114,32 @@ def strip_impl(v):
         if "l" in v:
             return {"l": [strip_impl(x) for x in v["l"]]}
     return v
+
+
+def shape_agree(m, i):
+    """model value vs implementation value; a pending reference of the model agrees with a resolved target whose
+    name is the referenced name (resolution itself is C07-C11's subject)"""
+    if isinstance(m, dict) and "ref" in m:
+        return isinstance(i, dict) and "refto" in i and m["ref"] == {"s": i["refto"]["name"]}
+    if isinstance(m, dict) and "cls" in m:
+        return (isinstance(i, dict) and "cls" in i and all(m[k] == i[k] for k in ("cls", "pos", "end", "loc"))
+                and len(m["attrs"]) == len(i["attrs"])
+                and all(a == b and shape_agree(x, y) for (a, x), (b, y) in zip(m["attrs"], i["attrs"])))
+    if isinstance(m, dict) and "l" in m:
+        return (isinstance(i, dict) and "l" in i and len(m["l"]) == len(i["l"])
+                and all(shape_agree(x, y) for x, y in zip(m["l"], i["l"])))
+    return m == i
+
+
+def has_ref(m):
+    if isinstance(m, dict):
+        if "ref" in m:
+            return True
+        if "cls" in m:
+            return any(has_ref(x) for _, x in m["attrs"])
+        if "l" in m:
+            return any(has_ref(x) for x in m["l"])
+    return False
 
 
 def model_outcome(mv, file_name=None):
@@ -123,8 +159,10 @@ def model_outcome(mv, file_name=None):
 
 def outcomes_agree(m, i):
     """model outcome vs implementation outcome (runner's `load`)"""
+    if m["ok"] and not i["ok"] and i["err"] == "TextXSemanticError" and has_ref(m["value"]):
+        return True      # an unresolvable reference: resolution is not modelled here
     if m["ok"] or i["ok"]:
-        return m["ok"] and i["ok"] and m["value"] == strip_impl(i["value"])
+        return m["ok"] and i["ok"] and shape_agree(m["value"], strip_impl(i["value"]))
     if m["err"] == "syntax":
         return i["err"] == "syntax" and i["pos"] == m["pos"]
     if m["err"] == "sem":
@@ -167,6 +205,10 @@ CORPUS = [
      "inputs": ["m t 1 t ! 2 's' 1.5 true x", "m t 0"], "tag": "corpus-defaults-noauto"},
     {"grammar": "Model: 'm' ts+=T; T: 't' flag?='!' n=INT s=STRING? f=FLOAT? b=BOOL? i=ID?;\n", "opts": {},
      "inputs": ["m t 1 t ! 2 's' 1.5 true x", "m t 0"], "tag": "corpus-defaults-auto"},
+    {"grammar": "Model: defs+=Def uses+=Use; Def: 'def' name=ID; Use: 'use' target=[Def] ('also' others+=[Def][','])?;\n", "opts": {},
+     "inputs": ["def a def b use a use b also a, b", "def a\n use a also a", "def a use c", "def a use"], "tag": "corpus-references"},
+    {"grammar": "Model: defs+=Def uses+=Use; Def: 'def' name=ID; Use: 'use' target=[Def] ('also' others+=[Def][','])?;\n", "opts": {"auto_init_attributes": False},
+     "inputs": ["def x use x def", "def q use q also q"], "tag": "corpus-references-noauto"},
     {"grammar": "Model: objs+=O; O: 'o' name=ID ('{' kids+=O '}')?;\nComment: /\\/\\/.*?$/;\n", "opts": {},
      "inputs": ["o a { o b // c\n o c {o d} }\n\n  o e", "// x\no a{}", "o a {\r\n o b }"], "tag": "corpus-nested-comment"},
 ]
